@@ -597,6 +597,39 @@ static std::string run_script(const std::vector<std::string>& lines, std::ostrea
             else em.addChunkSizeFunction([mn, mx, m](const ComponentIdMask& am) noexcept { ArchetypeChunkSize r; if (am.isMatch(m)) { r.min = mn; r.max = mx; } return r; });
         }
         else if (op == "dep") { int a; in >> a; do_register(a, 0); ComponentIdMask m; SharedComponentsInfo sh; parse_pals(in, m, sh); em.addDependency(d.cid[a], m); }
+        else if (op == "pcreate") {
+            // pcreate <rounds> <per>: in each round the manager is locked and every worker of the dispatcher creates <per> entities
+            // with component 0 at the same time (really concurrently: this is not a call-granularity interleaving); after the unlock
+            // every returned handle must be a distinct live entity and the archetype must have gained exactly that many members
+            int rounds, per; in >> rounds >> per; do_register(0, 0);
+            auto& disp = d.world->dispatcher();
+            const int n = int(disp.threadCount());
+            ComponentIdMask m; m.set(d.cid[0], true);
+            long dup = 0, invalid = 0, miscount = 0, total = 0;
+            for (int r = 0; r < rounds; ++r) {
+                std::vector<std::vector<Entity>> got(static_cast<size_t>(n));
+                std::atomic<int> started{0};
+                size_t before = 0;
+                for (auto& a : em.archetypes_) before += a->size();
+                em.lock();
+                for (int i = 0; i < n; ++i) {
+                    disp.addParallelTask([&, i](ThreadId) {
+                        started++;
+                        while (started.load() < n) { }
+                        for (int k = 0; k < per; ++k) got[static_cast<size_t>(i)].push_back(em.create(m, SharedComponentsInfo{}));
+                    });
+                }
+                disp.waitForParallelFinish();
+                em.unlock();
+                std::set<uint64_t> seen;
+                for (auto& v : got) for (auto e : v) { ++total; if (!seen.insert(e.value).second) ++dup; if (!em.isEntityValid(e)) ++invalid; }
+                size_t after = 0;
+                for (auto& a : em.archetypes_) after += a->size();
+                if (after - before != size_t(n) * size_t(per)) ++miscount;
+                for (auto v : seen) em.destroyNow(Entity::makeFromValue(v));
+            }
+            R << "pcreate workers=" << n << " created=" << total << " dup=" << dup << " invalid=" << invalid << " miscount=" << miscount;
+        }
         else if (op == "arm") { arm(); }
         else if (op == "disarm") { disarm(); }
         else if (op == "create") {
